@@ -393,6 +393,35 @@ def pageRankStrategies (c : PageRankCfg) (m : ClassMap) (classes : List Nat) (or
         let strategies' := setProbs strategies r.1
         (saveProbs m1 classes r.1, strategies'.take (n - 1), r.2)
 
+/-- Harness aid (not part of the mechanism): how close the convergence test
+`convergenceError < maximumConvergenceError` came to a tie in any iteration; the float
+computation may decide a tie within rounding error differently. -/
+def convMargin (m : List (List Rat)) (eps : Rat) : Nat → List Rat → Rat
+  | 0, _ => 2
+  | fuel + 1, p =>
+    let q := stepVec m p
+    let d := absRat (l1diff p q - eps)
+    if l1diff p q < eps then d
+    else
+      let d' := convMargin m eps fuel q
+      if d < d' then d else d'
+
+/-- `convMargin` for the iteration `pageRankStrategies` runs (2 when it runs none). -/
+def pageRankConvMargin (c : PageRankCfg) (m : ClassMap) (classes : List Nat) (origTO : Int) : Rat :=
+  let n := classes.length
+  if n ≤ 1 then 2
+  else
+    let m1 := ensureClasses m classes
+    let pcs := classList m1 classes
+    match medianOf (pcs.getLastD {}).execs with
+    | none => 2
+    | some med =>
+      match build c.F c.minTO (classes.getLastD 0) med origTO ((classes.zip pcs).take (n - 1)) true with
+      | .early _ => 2
+      | .full os _ =>
+        let outs := os ++ [newOutcomes (successTimes (pcs.getLastD {}).execs) 0]
+        convMargin (matrix outs n) c.eps c.fuel (startVec pcs)
+
 /-- `pageRankStrategyCalculator.GetBackgroundExecutionTimeout`; `none` = nil dereference. -/
 def backgroundTimeout (c : PageRankCfg) (m : ClassMap) (classes : List Nat) (idx : Nat) (origTO : Int) :
     Option Int :=
@@ -685,9 +714,12 @@ def selectorRun (env : Env) (interfere : Nat → Stats → Stats) (stats : Stats
   | none => none
   | some so => some (runPath env interfere (Trace.ofSelect so.out classes.length) so.out.stats evs).1
 
+/-- The fallback learners consult neither a calculator nor the history size. -/
+def fallbackEnv : Env := { calculator := .smallest, historySize := 0, failureCacheDuration := 0 }
+
 /-- A complete request against the fallback analyzer. -/
-def fallbackRun (env : Env) (stats : Stats) (timeout : Int) (classes : List Nat) (evs : List Ev) : Trace :=
+def fallbackRun (stats : Stats) (timeout : Int) (classes : List Nat) (evs : List Ev) : Trace :=
   let o := selectFallback stats timeout classes
-  (runPath env (fun _ s => s) (Trace.ofSelect o classes.length) o.stats evs).1
+  (runPath fallbackEnv (fun _ s => s) (Trace.ofSelect o classes.length) o.stats evs).1
 
 end BbRe.ISC
